@@ -35,7 +35,7 @@ PROPS = {
         "thorough_rounds": 20,
         "suite": "C04", "ref_sample": 3, "trusted": CORE_TRUSTED,
         "assumptions": ["statistical hiding of responses (randomizer Lstatzk bits longer than c*m) is the standard argument, cited"],
-        "partial": ["algebraic completeness (every honest proof verifies) is established by correspondence + honest-run oracle over all subsets; the Coq completeness theorem disclosure_complete is stated in DESIGN.md as pending"],
+        "partial": [],
     },
     "C05": {
         "thorough_rounds": 6,
@@ -80,15 +80,15 @@ PROPS = {
     "C11": {
         "thorough_rounds": 20,
         "suite": "C11", "ref_sample": 0, "trusted": CORE_TRUSTED,
-        "assumptions": ["extraction of (u,e) with u^e = nu from an accepted proof is the two-transcript argument of Camenisch-Lysyanskaya 2002 (cited)"],
+        "assumptions": ["soundness: the algebraic half of the extractor is proved (two_transcripts_give_representation); that the extracted representation yields (u,e) with u^e = nu, i.e. division of the response differences by c - c', is the strong-RSA argument of Camenisch-Lysyanskaya 2002 (cited)"],
         "partial": ["completeness for honest proofs holds only when exactly one hidden response lies below 2^580 (known finding C11:ambiguous-revocation-index)",
-                    "soundness extraction cited, not mechanised"],
+                    "soundness: the step from the extracted representation to an integer witness needs strong RSA (cited, not mechanised)"],
     },
     "C12": {
         "thorough_rounds": 20,
         "suite": "C12", "ref_sample": 2, "trusted": CORE_TRUSTED,
-        "assumptions": ["a verified range proof establishes the sum-of-squares relation by the two-transcript extractor + CL03 (cited); the theorems take the relation as hypothesis"],
-        "partial": ["extraction of the integer relation from an accepted proof is the Sigma-protocol/strong-RSA argument of the package comment (not mechanised)"],
+        "assumptions": ["a verified range proof establishes the sum-of-squares relation by the two-transcript extractor (algebraic half proved: two_transcripts_give_representation) + strong RSA / CL03 (cited); the statement-logic theorems take the relation as hypothesis"],
+        "partial": ["the step from the extracted group representation to the integer relation is the strong-RSA argument of the package comment (not mechanised)"],
     },
     "C13": {
         "thorough_rounds": 20,
@@ -107,7 +107,7 @@ PROPS = {
         "suite": "C18", "ref_sample": 40,
         "trusted": ["encoding/xml, encoding/json, encoding/base64, fxamacker/cbor tokenisers (not modelled); the POSIX model of open(2)/fchmod(2) in FilePerm.v (validated on the real file system)"],
         "assumptions": [],
-        "partial": ["'a re-read message verifies exactly as the original' is established by re-verification of re-read messages (oracle), the JSON/CBOR tokenisers are not modelled"],
+        "partial": ["'a re-read message verifies exactly as the original': proved for integers, key documents and compressed event lists; for proofs and updates it is established by re-verification of re-read messages (oracle); the JSON/CBOR tokenisers are not modelled"],
     },
     "C19": {
         "thorough_rounds": 5,
